@@ -427,7 +427,21 @@ func TestC20(t *testing.T) {
 			path  func(l int) string
 			mount func() (filesystem.FS, func()) // non-nil: a fresh mount per algorithm instead of fs
 		}
+		// a link to a directory that lies elsewhere, left again through "..": <dir>-via/lnk/../f<l> is <elsewhere>/f<l> (the parent
+		// of the link's TARGET), whereas simplifying the text gives <dir>-via/f<l> — another file, which exists, with other bytes
+		elsewhere := dir + "-elsewhere"
+		defer os.RemoveAll(elsewhere)
+		_ = os.MkdirAll(filepath.Join(elsewhere, "target"), 0o755)
+		via := dir + "-via" // beside the file set, not in it: the set is archived again further down
+		defer os.RemoveAll(via)
+		_ = os.MkdirAll(via, 0o755)
+		_ = os.Symlink(filepath.Join(elsewhere, "target"), filepath.Join(via, "lnk"))
+		for _, l := range lens {
+			_ = os.WriteFile(filepath.Join(elsewhere, fmt.Sprintf("f%d", l)), content(l, 9), 0o644)
+			_ = os.WriteFile(filepath.Join(via, fmt.Sprintf("f%d", l)), content(l+1, 17), 0o644) // the decoy
+		}
 		ways := []way{
+			{name: "os-through-linked-directory-and-back-out", fs: osfs, path: func(l int) string { return filepath.Join(via, "lnk") + "/../" + fmt.Sprintf("f%d", l) }},
 			{name: "os-through-link", fs: osfs, path: func(l int) string { return filepath.Join(dir, fmt.Sprintf("link-to-f%d", l)) }},
 			{name: "os-through-linked-directory", fs: osfs, path: func(l int) string { return filepath.Join(dir+"-linked-directory", fmt.Sprintf("f%d", l)) }},
 		}
